@@ -142,7 +142,7 @@ func finish(d desc, coqHead string, o cfg.Obs, marker *cfg.Marker, extra ...stri
 	nt := !o.Accepted
 	if marker != nil {
 		det := append(append([]string{}, o.Static...), o.Dynamic...)
-		if strings.HasPrefix(d.Stream, "dash") {
+		if strings.HasPrefix(d.Stream, "dash") || d.Stream == "src" {
 			det = append(det, extra...)
 		}
 		if _, found := findIn(det, marker.S); found {
@@ -222,6 +222,48 @@ func dashCase(d desc, doc string, marker *cfg.Marker) lib.Case {
 	return c
 }
 
+// srcCase: web.SaveSource with the marker as source name while an integration
+// of the seed that refers to a source of that name is stored.
+func srcCase(d desc, marker *cfg.Marker) lib.Case {
+	name := ""
+	if marker != nil {
+		name = marker.S
+	}
+	igDoc, err := cfg.Sub(cfg.Seeds[d.Seed], fmt.Sprintf("integrations/%d", d.Ig))
+	if err == nil {
+		igDoc, err = cfg.ReplaceAt(igDoc, "sources/0/name", name)
+	}
+	if err != nil {
+		return lib.Case{Desc: d, Kind: "src/decode-error", OracleOK: true}
+	}
+	coq, o := dashEnv.RunSource(name, igDoc)
+	c := finish(d, "CSrc "+cfg.CClasses(igDoc, name)+" "+cfg.CRunes(name)+" "+coq, o.Obs, marker, o.AllSQL...)
+	if c.Coq != "" {
+		apps := append([]string{}, o.AppNames...)
+		sort.Strings(apps)
+		store := append([]string{}, o.Store...)
+		sort.Strings(store)
+		quiet := "false"
+		if o.Quiet {
+			quiet = "true"
+		}
+		c.Coq += " " + coqTexts(apps) + " " + coqTexts(store) + " " + quiet
+	}
+	if marker != nil && marker.Hostile && !o.Quiet && c.OracleOK {
+		c.OracleOK = false
+		c.OracleMsg = fmt.Sprintf("SaveSource with the name %q (outside the alphabet) did not stop at the check: %d statement(s) reached the database, first: %q", name, len(o.AllSQL), o.AllSQL[0])
+	}
+	if o.Hung {
+		c.OracleOK = false
+		c.OracleMsg = "Manager.Run did not return after SaveSource"
+	}
+	if o.Err != "" && c.OracleOK {
+		c.OracleOK = false
+		c.OracleMsg = "SaveSource path: " + o.Err
+	}
+	return c
+}
+
 func numIgs(seed string) int {
 	var r shconfig.Root
 	json.Unmarshal([]byte(cfg.Seeds[seed]), &r)
@@ -261,6 +303,8 @@ func build(d desc) (lib.Case, error) {
 		return fileCase(d, doc, marker), nil
 	case "dash-seed", "dash-pos", "dash-rename":
 		return dashCase(d, doc, marker), nil
+	case "src":
+		return srcCase(d, marker), nil
 	}
 	return lib.Case{}, fmt.Errorf("unknown stream %q", d.Stream)
 }
@@ -440,6 +484,18 @@ func run(c lib.Cfg) error {
 				for _, m := range pickRename() {
 					descs = append(descs, desc{Stream: "dash-rename", Seed: seed, Path: id, Marker: m, Ig: ig})
 				}
+			}
+		}
+	}
+	// web.SaveSource: every distinctive marker (and the empty name) as source name
+	for _, sd := range []struct {
+		seed string
+		ig   int
+	}{{"erc20", 0}, {"txtrace", 0}} {
+		descs = append(descs, desc{Stream: "src", Seed: sd.seed, Ig: sd.ig, Marker: -1, Path: "save-source/name"})
+		for m := range cfg.Markers {
+			if strings.Contains(cfg.Markers[m].S, "zq") {
+				descs = append(descs, desc{Stream: "src", Seed: sd.seed, Ig: sd.ig, Marker: m, Path: "save-source/name"})
 			}
 		}
 	}
